@@ -175,64 +175,301 @@ Qed.
 Lemma run_app s a b : run s (a ++ b) = run (run s a) b.
 Proof. unfold run. apply fold_left_app. Qed.
 
+Lemma memZ_app t a b : memZ t (a ++ b) = memZ t a || memZ t b.
+Proof. unfold memZ. apply existsb_app. Qed.
+
+Lemma memZ_filter t f l : memZ t (filter f l) = f t && memZ t l.
+Proof.
+  unfold memZ. induction l as [|x l IH]; cbn [filter existsb].
+  - rewrite andb_false_r. reflexivity.
+  - destruct (f x) eqn:F; cbn [existsb]; rewrite IH.
+    + destruct (Z.eqb_spec t x) as [E|E].
+      * subst. rewrite F. reflexivity.
+      * reflexivity.
+    + destruct (Z.eqb_spec t x) as [E|E].
+      * subst. rewrite F. reflexivity.
+      * reflexivity.
+Qed.
+
+Lemma memZ_remove_all t xs l : memZ t (remove_all xs l) = negb (memZ t xs) && memZ t l.
+Proof. unfold remove_all. apply memZ_filter. Qed.
+
+Lemma filter_filter (A : Type) (f g : A -> bool) l :
+  filter g (filter f l) = filter (fun x => f x && g x) l.
+Proof.
+  induction l as [|x l IH]; [reflexivity|]. cbn [filter].
+  destruct (f x); cbn [filter andb]; [destruct (g x)|]; rewrite IH; reflexivity.
+Qed.
+
+Lemma remove_all_comm xs ys l : remove_all xs (remove_all ys l) = remove_all ys (remove_all xs l).
+Proof.
+  unfold remove_all. rewrite !filter_filter. apply filter_ext. intros t. apply andb_comm.
+Qed.
+
+Lemma remove_all_app xs ys l : remove_all (xs ++ ys) l = remove_all ys (remove_all xs l).
+Proof.
+  unfold remove_all. rewrite filter_filter. apply filter_ext. intros t.
+  rewrite memZ_app, negb_orb. reflexivity.
+Qed.
+
+Lemma remove_all_idem xs l : remove_all xs (remove_all xs l) = remove_all xs l.
+Proof.
+  unfold remove_all. rewrite filter_filter. apply filter_ext. intros t. apply andb_diag.
+Qed.
+
+Lemma remove_all_snoc xs l t : memZ t xs = false -> remove_all xs (l ++ [t]) = remove_all xs l ++ [t].
+Proof. intros H. unfold remove_all. rewrite filter_app. cbn [filter]. rewrite H. reflexivity. Qed.
+
 Definition live (s : dbstate) : Prop := buckets s = true /\ chain s <> [].
+
+Lemma live_len s : live s -> (0 <? Z.of_nat (length (chain s))) = true.
+Proof. intros [_ Hc]. destruct (chain s); [contradiction|]. apply Z.ltb_lt. cbn [length]. lia. Qed.
 
 Lemma apply_live s o : live s -> live (apply_op s o).
 Proof.
-  intros [Hb Hc]. destruct o as [|g|seq cf|t]; cbn [apply_op].
+  intros [Hb Hc]. destruct o as [|g|seq cf kl|t|]; cbn [apply_op].
   - split; [reflexivity|exact Hc].
   - destruct (buckets s && _); [split; [reflexivity|discriminate]|split; assumption].
   - destruct (buckets s && _ && _); [|split; assumption].
     split; [reflexivity|]. cbn [chain]. intros E. apply app_eq_nil in E as [_ E]. discriminate.
-  - destruct (buckets s && _ && _); [|split; assumption]. split; [reflexivity|exact Hc].
+  - destruct (buckets s && _ && _ && _); [|split; assumption]. split; [reflexivity|exact Hc].
+  - split; assumption.
 Qed.
 
 Lemma run_live ops : forall s, live s -> live (run s ops).
 Proof. induction ops as [|o ops IH]; intros s H; [exact H|]. apply IH. apply apply_live. exact H. Qed.
 
-Lemma restart_live g s : live s -> restart g s = s.
+Lemma settle_idem s : settle (settle s) = settle s.
+Proof. unfold settle. cbn [apply_op buckets chain pool dead]. rewrite remove_all_idem. reflexivity. Qed.
+
+Lemma settle_live s : live s -> live (settle s).
+Proof. apply apply_live. Qed.
+
+(* on a database that already holds the genesis block, restart = clean-up *)
+Lemma restart_live g s : live s -> restart g s = settle s.
 Proof.
-  intros [Hb Hc]. unfold restart, run. cbn [fold_left apply_op].
-  destruct s as [b c p]. cbn in *. subst b. cbn.
-  destruct c as [|x c]; [contradiction|]. cbn [length]. 
+  intros [Hb Hc]. unfold restart, run, settle. cbn [fold_left].
+  destruct s as [b c p d]. cbn in *. subst b.
+  destruct c as [|x c]; [contradiction|]. cbn [length].
   replace (Z.of_nat (S (length c)) =? 0) with false by (symmetry; apply Z.eqb_neq; lia). reflexivity.
 Qed.
 
-Lemma restart_makes_live g s : chain s = [] -> live (restart g s).
+Lemma restart_makes_live g s : live (restart g s).
 Proof.
-  intros Hc. unfold restart, run. cbn [fold_left apply_op]. rewrite Hc. cbn. split; [reflexivity|discriminate].
+  unfold restart, run. cbn [fold_left]. apply apply_live.
+  cbn [apply_op buckets chain]. destruct (chain s) as [|x c] eqn:E.
+  - cbn. split; [reflexivity|discriminate].
+  - cbn [length andb]. replace (Z.of_nat (S (length c)) =? 0) with false by (symmetry; apply Z.eqb_neq; lia).
+    split; [reflexivity|]. cbn. try rewrite E. discriminate.
 Qed.
 
 (* restart is idempotent *)
 Lemma restart_idempotent g s : restart g (restart g s) = restart g s.
 Proof.
-  destruct (chain s) as [|x c] eqn:E.
-  - apply restart_live. apply restart_makes_live. exact E.
-  - assert (L : live (restart g s)).
-    { unfold restart, run. cbn [fold_left apply_op]. rewrite E. cbn [chain length].
-      replace (Z.of_nat (S (length c)) =? 0) with false by (symmetry; apply Z.eqb_neq; lia).
-      rewrite andb_false_r. split; [reflexivity|cbn; discriminate]. }
-    apply restart_live. exact L.
+  rewrite (restart_live g (restart g s)) by apply restart_makes_live.
+  unfold restart, run. cbn [fold_left]. apply settle_idem.
 Qed.
 
-(* crash between any two commits of the scripted life-cycle, restart, receive
-   the remaining operations: same final state as the node that never crashed *)
-Theorem crash_between_commits g work k :
-  run (restart g (run empty_db (firstn k (script g work)))) (skipn k (script g work))
-  = run empty_db (script g work).
+(* two states that differ only in pool entries a clean-up would drop *)
+Definition R (s1 s2 : dbstate) : Prop :=
+  buckets s1 = buckets s2 /\ chain s1 = chain s2 /\ dead s1 = dead s2 /\
+  remove_all (dead s1) (pool s1) = remove_all (dead s2) (pool s2).
+
+Lemma R_settle_l s : R (settle s) s.
+Proof. unfold R, settle. cbn [apply_op buckets chain pool dead]. rewrite remove_all_idem. repeat split. Qed.
+
+Lemma R_settle s1 s2 : R s1 s2 -> settle s1 = settle s2.
 Proof.
-  destruct k as [|[|k]].
-  - (* nothing committed *)
-    cbn [firstn skipn]. unfold script, restart, run, empty_db. cbn. reflexivity.
-  - (* only the buckets exist *)
-    unfold script. cbn [firstn skipn]. unfold restart, run, empty_db. cbn. reflexivity.
-  - (* the genesis block is in: restart changes nothing *)
-    assert (L : live (run empty_db (firstn (Datatypes.S (Datatypes.S k)) (script g work)))).
-    { unfold script. cbn [firstn]. change (CreateBuckets :: AddGenesis g :: firstn k work)
-        with ([CreateBuckets; AddGenesis g] ++ firstn k work). rewrite run_app. apply run_live.
-      unfold run, empty_db. cbn. split; [reflexivity|discriminate]. }
+  intros (Hb & Hc & Hd & Hp). unfold settle. cbn [apply_op]. rewrite Hb, Hc, Hp, Hd. reflexivity.
+Qed.
+
+Lemma R_apply s1 s2 o : R s1 s2 -> R (apply_op s1 o) (apply_op s2 o).
+Proof.
+  intros (Hb & Hc & Hd & Hp). pose proof Hp as Hp0. rewrite Hd in Hp.
+  destruct o as [|g|seq cf kl|t|]; cbn [apply_op].
+  - repeat split; assumption.
+  - rewrite Hb, Hc. destruct (buckets s2 && _); repeat split; assumption.
+  - rewrite Hb, Hc. destruct (buckets s2 && _ && _); [|repeat split; assumption].
+    unfold R. cbn [buckets chain pool dead]. rewrite Hd. repeat split.
+    rewrite !remove_all_app. rewrite (remove_all_comm (dead s2) cf (pool s1)), (remove_all_comm (dead s2) cf (pool s2)).
+    rewrite Hp. reflexivity.
+  - rewrite Hb, Hc, Hd. destruct (memZ t (dead s2)) eqn:D.
+    + rewrite !andb_false_r. repeat split; assumption.
+    + assert (M : memZ t (pool s1) = memZ t (pool s2)).
+      { assert (A : forall p, memZ t p = memZ t (remove_all (dead s2) p)).
+        { intros p. rewrite memZ_remove_all, D. reflexivity. }
+        rewrite (A (pool s1)), (A (pool s2)). rewrite Hp. reflexivity. }
+      rewrite M. destruct (buckets s2 && _ && _ && _); [|repeat split; assumption].
+      unfold R. cbn [buckets chain pool dead]. repeat split; try assumption.
+      rewrite ?Hd. rewrite !remove_all_snoc by exact D. rewrite Hp. reflexivity.
+  - unfold R. cbn [buckets chain pool dead]. repeat split; try assumption.
+    rewrite Hd. rewrite Hp. reflexivity.
+Qed.
+
+Lemma R_run ops : forall s1 s2, R s1 s2 -> R (run s1 ops) (run s2 ops).
+Proof. induction ops as [|o ops IH]; intros s1 s2 H; [exact H|]. apply IH. apply R_apply. exact H. Qed.
+
+(* an operation the database has already seen: applying it again is a no-op *)
+Definition seen (s : dbstate) (o : cop) : Prop :=
+  match o with
+  | Inject t => memZ t (pool s) = true \/ memZ t (dead s) = true
+  | ExecBlock seq _ _ => seq < Z.of_nat (length (chain s))
+  | _ => True
+  end.
+
+Lemma noop_on_settled s o : live s -> seen s o -> apply_op (settle s) o = settle s.
+Proof.
+  intros L H. pose proof (live_len s L) as Hl. destruct L as [Hb Hc].
+  destruct o as [|g|seq cf kl|t|]; cbn [seen] in H.
+  - unfold settle. cbn [apply_op buckets chain pool dead]. rewrite Hb. reflexivity.
+  - unfold settle. cbn [apply_op buckets chain pool dead].
+    replace (Z.of_nat (length (chain s)) =? 0) with false by (symmetry; apply Z.eqb_neq; apply Z.ltb_lt in Hl; lia).
+    rewrite andb_false_r. reflexivity.
+  - unfold settle. cbn [apply_op buckets chain pool dead].
+    replace (seq =? Z.of_nat (length (chain s))) with false by (symmetry; apply Z.eqb_neq; lia).
+    rewrite andb_false_r. reflexivity.
+  - unfold settle. cbn [apply_op buckets chain pool dead].
+    rewrite memZ_remove_all. destruct (memZ t (dead s)) eqn:D.
+    + rewrite !andb_false_r. reflexivity.
+    + destruct H as [H|H]; [|discriminate]. rewrite H. cbn [negb andb]. rewrite !andb_false_r. reflexivity.
+  - apply settle_idem.
+Qed.
+
+Lemma noop_all ops : forall s, live s -> Forall (seen s) ops -> run (settle s) ops = settle s.
+Proof.
+  induction ops as [|o ops IH]; intros s L H; [reflexivity|].
+  inversion H as [|? ? Ho Hr]; subst. unfold run. cbn [fold_left]. fold (run (apply_op (settle s) o) ops).
+  rewrite noop_on_settled by assumption. apply IH; assumption.
+Qed.
+
+Lemma seen_mono s o o' : live s -> seen s o -> seen (apply_op s o') o.
+Proof.
+  intros L H. pose proof (live_len s L) as Hl. destruct L as [Hb Hc].
+  destruct o as [|g|seq cf kl|t|]; cbn [seen] in *; try exact I.
+  - (* a block stays below the head *)
+    destruct o' as [|g'|seq' cf' kl'|t'|]; cbn [apply_op]; try exact H.
+    + destruct (buckets s && (Z.of_nat (length (chain s)) =? 0)) eqn:C; [|exact H].
+      apply andb_true_iff in C as [_ C]. apply Z.eqb_eq in C. apply Z.ltb_lt in Hl. lia.
+    + destruct (buckets s && _ && _); [|exact H]. cbn [chain]. rewrite app_length. cbn [length]. lia.
+    + destruct (buckets s && _ && _ && _); exact H.
+  - (* an injected transaction stays in the pool or is dead *)
+    destruct o' as [|g'|seq' cf' kl'|t'|]; cbn [apply_op]; try exact H.
+    + destruct (buckets s && _); exact H.
+    + destruct (buckets s && _ && _); [|exact H]. cbn [pool dead].
+      rewrite memZ_remove_all, !memZ_app. destruct H as [H|H].
+      * rewrite H. destruct (memZ t cf'); [right; rewrite orb_true_r; reflexivity|left; reflexivity].
+      * right. rewrite H. reflexivity.
+    + destruct (buckets s && _ && _ && _); [|exact H]. cbn [pool dead]. rewrite memZ_app.
+      destruct H as [H|H]; [left; rewrite H; reflexivity|right; exact H].
+    + cbn [pool dead]. rewrite memZ_remove_all. destruct (memZ t (dead s)) eqn:D; [right; reflexivity|].
+      destruct H as [H|H]; [left; rewrite H; reflexivity|discriminate].
+Qed.
+
+Lemma seen_run_mono ops : forall s o, live s -> seen s o -> seen (run s ops) o.
+Proof.
+  induction ops as [|o' ops IH]; intros s o L H; [exact H|].
+  apply IH; [apply apply_live; exact L|apply seen_mono; assumption].
+Qed.
+
+(* after a well-formed work list has run, every one of its operations is `seen` *)
+Lemma run_seen work : forall n s, live s -> n = Z.of_nat (length (chain s)) -> wf_work n work = true ->
+  Forall (seen (run s work)) work.
+Proof.
+  induction work as [|o r IH]; intros n s L Hn W; [constructor|].
+  pose proof (live_len s L) as Hl. pose proof L as [Hb Hc].
+  assert (L' : live (apply_op s o)) by (apply apply_live; exact L).
+  destruct o as [|g|seq cf kl|t|]; cbn [wf_work] in W; try discriminate.
+  - apply andb_true_iff in W as [E W]. apply Z.eqb_eq in E.
+    assert (A : apply_op s (ExecBlock seq cf kl) =
+                {| buckets := true; chain := chain s ++ [seq]; pool := remove_all cf (pool s); dead := dead s ++ cf ++ kl |}).
+    { cbn [apply_op]. rewrite Hb, Hl. replace (seq =? Z.of_nat (length (chain s))) with true by (symmetry; apply Z.eqb_eq; lia). reflexivity. }
+    constructor.
+    + change (run s (ExecBlock seq cf kl :: r)) with (run (apply_op s (ExecBlock seq cf kl)) r).
+      apply seen_run_mono; [exact L'|]. rewrite A. cbn [seen chain]. rewrite app_length. cbn [length]. lia.
+    + change (run s (ExecBlock seq cf kl :: r)) with (run (apply_op s (ExecBlock seq cf kl)) r).
+      apply (IH (n + 1)); [exact L'| |exact W]. rewrite A. cbn [chain]. rewrite app_length. cbn [length]. lia.
+  - constructor.
+    + change (run s (Inject t :: r)) with (run (apply_op s (Inject t)) r).
+      apply seen_run_mono; [exact L'|]. cbn [apply_op seen]. rewrite Hb, Hl. cbn [andb].
+      destruct (memZ t (pool s)) eqn:P; cbn [negb andb]; [left; exact P|].
+      destruct (memZ t (dead s)) eqn:D; cbn [negb]; [right; exact D|].
+      left. cbn [pool]. rewrite memZ_app. cbn [memZ existsb]. rewrite Z.eqb_refl, orb_true_r. reflexivity.
+    + change (run s (Inject t :: r)) with (run (apply_op s (Inject t)) r).
+      apply (IH n); [exact L'| |exact W]. cbn [apply_op]. destruct (buckets s && _ && _ && _); exact Hn.
+  - constructor; [exact I|].
+    change (run s (Cleanup :: r)) with (run (apply_op s Cleanup) r).
+    apply (IH n); [exact L'|exact Hn|exact W].
+Qed.
+
+Lemma wf_firstn k : forall n w, wf_work n w = true -> wf_work n (firstn k w) = true.
+Proof.
+  induction k as [|k IH]; intros n w W; [reflexivity|].
+  destruct w as [|o r]; [reflexivity|]. cbn [firstn].
+  destruct o as [|g|seq cf kl|t|]; cbn [wf_work] in *; try discriminate.
+  - apply andb_true_iff in W as [E W]. rewrite E. cbn [andb]. apply IH. exact W.
+  - apply IH. exact W.
+  - apply IH. exact W.
+Qed.
+
+Definition s0 (g : Z) : dbstate := {| buckets := true; chain := [g]; pool := []; dead := [] |}.
+
+Lemma s0_live g : live (s0 g).
+Proof. split; [reflexivity|discriminate]. Qed.
+
+(* a crash between ANY two commits of the scripted life-cycle; restart (which
+   cleans the pool); EVERYTHING is delivered again from the start (the
+   operations already committed are refused or no-ops): after the periodic pool
+   clean-up the state equals that of the node that never crashed *)
+Theorem crash_between_commits g work k : wf_work 1 work = true ->
+  settle (run (restart g (run empty_db (firstn k (script g work)))) work)
+  = settle (run empty_db (script g work)).
+Proof.
+  intros W.
+  assert (RHS : run empty_db (script g work) = run (s0 g) work) by reflexivity.
+  rewrite RHS. destruct k as [|[|k]].
+  - reflexivity.
+  - reflexivity.
+  - unfold script. cbn [firstn].
+    change (run empty_db (CreateBuckets :: AddGenesis g :: firstn k work)) with (run (s0 g) (firstn k work)).
+    set (sk := run (s0 g) (firstn k work)).
+    assert (L : live sk) by (apply run_live, s0_live).
     rewrite restart_live by exact L.
-    rewrite <- run_app. rewrite firstn_skipn. reflexivity.
+    rewrite <- (firstn_skipn k work) at 1. rewrite run_app.
+    rewrite noop_all; [|exact L|].
+    2:{ apply (run_seen (firstn k work) 1 (s0 g)); [apply s0_live|reflexivity|apply wf_firstn; exact W]. }
+    apply R_settle.
+    replace (run (s0 g) work) with (run sk (skipn k work)).
+    2:{ unfold sk. rewrite <- run_app, firstn_skipn. reflexivity. }
+    apply R_run. apply R_settle_l.
+Qed.
+
+(* the same when only the remaining operations are delivered *)
+Theorem crash_then_remaining g work k :
+  settle (run (restart g (run empty_db (firstn k (script g work)))) (skipn k (script g work)))
+  = settle (run empty_db (script g work)).
+Proof.
+  assert (RHS : run empty_db (script g work) = run (s0 g) work) by reflexivity.
+  rewrite RHS. destruct k as [|[|k]].
+  - reflexivity.
+  - reflexivity.
+  - unfold script. cbn [firstn skipn].
+    change (run empty_db (CreateBuckets :: AddGenesis g :: firstn k work)) with (run (s0 g) (firstn k work)).
+    set (sk := run (s0 g) (firstn k work)).
+    assert (L : live sk) by (apply run_live, s0_live).
+    rewrite restart_live by exact L.
+    apply R_settle.
+    replace (run (s0 g) work) with (run sk (skipn k work)).
+    2:{ unfold sk. rewrite <- run_app, firstn_skipn. reflexivity. }
+    apply R_run. apply R_settle_l.
+Qed.
+
+(* without the clean-up in Init the two nodes' pools are NOT equal before the
+   next periodic clean-up: the statement without `settle` is false *)
+Lemma crash_without_settle_refuted :
+  exists g work k, wf_work 1 work = true /\
+    run (restart g (run empty_db (firstn k (script g work)))) work <> run empty_db (script g work).
+Proof.
+  exists 0, [Inject 7; ExecBlock 1 [5] [7]], 4%nat. split; [reflexivity|]. vm_compute. discriminate.
 Qed.
 
 (* ------------------------------------------------------------------ C. WalkChain *)
